@@ -108,12 +108,18 @@ PatMatch(p, cs) ==
     [] p = "p_bt"  -> cs = <<"a", "bt", "b">>
     [] p = "p_cls" -> \E n \in 1..Len(cs) : /\ \A i \in 1..n : cs[i] \in {"a", "b", "d1", "us"}
                                            /\ \/ n = Len(cs)
-                                              \/ n + 1 = Len(cs) /\ cs[n + 1] \in {"sp", "nl"}
+                                              \/ n + 1 = Len(cs) /\ cs[n + 1] \in {"sp", "nl", "tb", "cr"}
+    \* patterns whose first or last character is white space (the text must reach the check untrimmed)
+    [] p = "p_tsp"  -> Len(cs) >= 2 /\ cs[1] = "a" /\ cs[2] = "sp"
+    [] p = "p_lsp"  -> Len(cs) >= 2 /\ cs[Len(cs) - 1] = "sp" /\ cs[Len(cs)] = "b"
+    [] p = "p_ws"   -> \E i \in DOMAIN cs : cs[i] = "sp"
+    [] p = "p_ttab" -> Len(cs) >= 2 /\ cs[1] = "a" /\ cs[2] = "tb"
     [] OTHER -> TRUE
 \* Patterns whose TEXT is hostile to the emitter (a double quote, a backtick, backslash classes): same meaning
 \*   "p_qt"  ^"a"$      "p_bt"  ^a`b$      "p_cls" ^\w+\s?$
 \* judged on hand-picked strings over the wider character set (HostStrings in MC_C06).
-HostPatIds == {"p_qt", "p_bt", "p_cls"}
+\*   "p_tsp" "^a "      "p_lsp" " b$"      "p_ws" " "      "p_ttab" "^a<TAB>"
+HostPatIds == {"p_qt", "p_bt", "p_cls", "p_tsp", "p_lsp", "p_ws", "p_ttab"}
 
 \* string formats the tool maps to dedicated Go types
 Formats == {"date", "time", "date-time", "ipv4", "ipv6"}
